@@ -31,6 +31,10 @@ void GMGPolar::solve()
     int start_level_depth = 0;
     Level& level          = levels_[start_level_depth];
 
+    /* The combined strategy starts every solve with full grid smoothing and switches at most once. */
+    if (extrapolation_ == ExtrapolationType::COMBINED)
+        full_grid_smoothing_ = true;
+
     number_of_iterations_ = 0;
     residual_norms_.clear();
     exact_errors_.clear();
